@@ -1,6 +1,7 @@
 package state
 
 import (
+	"github.com/ProtonMail/gluon/db"
 	"strings"
 
 	"github.com/ProtonMail/gluon/imap"
@@ -286,4 +287,70 @@ func VerifC14List() {
 	}
 	vsymAssert(len(got) == want, "nothing but existing names and their superiors is listed")
 	vsymCover("list-done")
+}
+
+var c14LsubPool = []string{"a", "a/b", "a/b/c", "b"}
+var c14LsubPatterns = []string{"*", "%", "a/%", "a/*", "a/b", "%/%", "*c", "b"}
+
+// VerifC14Lsub: LSUB over every combination of {absent, subscribed, unsubscribed, deleted but still subscribed} for
+// a pool of names: exactly the subscribed names the pattern selects are returned; a name that is not subscribed
+// itself but has a subscribed inferior is returned with \Noselect when the pattern ends in '%' (RFC 3501 6.3.9);
+// a subscribed name whose mailbox is gone is \Noselect as well.
+func VerifC14Lsub() {
+	w := verifNewWorld(limits.DefaultLimits())
+	inbox := w.db.AddBox("INBOX", "mb-inbox", 2)
+	inbox.Subscribed = false
+	subscribed := map[string]bool{}
+	exists := map[string]bool{"INBOX": true}
+	for i, nm := range c14LsubPool {
+		switch vsymChoice("state", 4) {
+		case 1:
+			w.db.AddBox(nm, imap.MailboxID("mb-"+nm), imap.UID(10+i)) // AddBox subscribes
+			subscribed[nm], exists[nm] = true, true
+		case 2:
+			w.db.AddBox(nm, imap.MailboxID("mb-"+nm), imap.UID(10+i)).Subscribed = false
+			exists[nm] = true
+		case 3:
+			w.db.DeletedSubs = append(w.db.DeletedSubs, db.DeletedSubscription{Name: nm, RemoteID: imap.MailboxID("gone-" + nm)})
+			subscribed[nm] = true
+		}
+	}
+	pattern := c14LsubPatterns[vsymChoice("pattern", len(c14LsubPatterns))]
+	st := w.newState(1)
+	var got map[string]Match
+	err := st.List(ctxFor(st), "", pattern, true, func(m map[string]Match) error { got = m; return nil })
+	vsymAssert(err == nil, "LSUB succeeds")
+	if err != nil {
+		return
+	}
+	cand := map[string]bool{}
+	for nm := range subscribed {
+		cand[nm] = true
+		for _, s := range c14Superiors(nm) {
+			cand[s] = true
+		}
+	}
+	want := 0
+	for nm := range cand {
+		m, in := got[nm]
+		sel := c14Wild(pattern, nm)
+		switch {
+		case sel && subscribed[nm]:
+			want++
+			vsymAssert(in, "a subscribed name the pattern selects is returned by LSUB")
+			if in {
+				vsymAssert(m.Atts.Contains(imap.AttrNoSelect) == !exists[nm], "\\Noselect exactly when the subscribed name has no mailbox any more")
+			}
+		case sel && !subscribed[nm] && strings.HasSuffix(pattern, "%"):
+			want++
+			vsymAssert(in, "an unsubscribed name with a subscribed inferior is returned when the pattern ends in %")
+			if in {
+				vsymAssert(m.Atts.Contains(imap.AttrNoSelect), "... with \\Noselect")
+			}
+		default:
+			vsymAssert(!in, "LSUB returns nothing but subscribed names (and their parents under a trailing %)")
+		}
+	}
+	vsymAssert(len(got) == want, "nothing else is returned")
+	vsymCover("lsub-done")
 }
